@@ -16,7 +16,7 @@ if [ "$res" = "apply=ok" ]; then
   suite=$(cargo test --workspace --offline 2>&1 | grep -E "^test result" | head -1)
   mkdir -p tests; cp "$D/demo.rs" tests/demo.rs
   with=$(cargo test --offline --test demo 2>&1 | grep -E "^test result" | head -1)
-  git checkout -- src
+  git checkout HEAD -- src
   without=$(cargo test --offline --test demo 2>&1 | grep -E "^test result" | head -1)
   echo "$res | suite: $suite | demo with: $with | demo without: $without"
 else
